@@ -74,7 +74,7 @@ func main() {
 		g := &Gen{R: rand.New(rand.NewSource(*seed*1000003 + int64(si)))}
 		m := su.NewMachine()
 		st := NewStats()
-		ck := &Checker{M: m, Model: md, Monitors: su.Monitors, Known: knownSigs, Stats: st, OpName: su.OpName, MaxFind: 6, NoModel: su.NoModel}
+		ck := &Checker{M: m, Model: md, Monitors: su.Monitors, Known: knownSigs, Stats: st, OpName: su.OpName, MaxFind: 6, NoModel: su.NoModel, SigPrefix: su.Name + ":"}
 		n := su.Quick
 		if *tier == "thorough" {
 			n = su.Thorough
@@ -123,10 +123,10 @@ func corpusFor(prop, suite string) []*Case {
 			continue
 		}
 		t, err := ParseTok(strings.TrimSpace(string(b)))
-		if err != nil || t.Kind != 2 || len(t.L) != 3 {
+		if err != nil || t.Kind != 2 {
 			continue
 		}
-		out = append(out, &Case{Ops: t.L[2].L})
+		out = append(out, &Case{Ops: t.L})
 	}
 	return out
 }
@@ -141,22 +141,24 @@ func doReplay(path, model string) int {
 	}
 	var f Finding
 	caseStr := strings.TrimSpace(string(b))
-	if json.Unmarshal(b, &f) == nil && f.Case != "" {
-		caseStr = f.Case
-	}
-	t, err := ParseTok(caseStr)
-	if err != nil || t.Kind != 2 || len(t.L) != 3 {
-		fmt.Println("not a case token")
+	if json.Unmarshal(b, &f) != nil || f.ImplOps == "" {
+		fmt.Println("not a finding file")
 		return 2
 	}
-	mk, ok := machineByID[t.L[0].I()]
+	t, err := ParseTok(f.ImplOps)
+	if err != nil || t.Kind != 2 {
+		fmt.Println("bad impl_ops token")
+		return 2
+	}
+	mk, ok := machineByID[f.Machine]
 	if !ok {
 		fmt.Println("unknown machine")
 		return 2
 	}
 	m := mk()
 	defer m.Close()
-	r := RunImpl(m, &Case{Machine: m.ID(), Ops: t.L[2].L})
+	_ = caseStr
+	r := RunImpl(m, &Case{Machine: m.ID(), Ops: t.L})
 	md, err := StartModel(model)
 	if err != nil {
 		fmt.Println(err)
